@@ -1587,4 +1587,56 @@ theorem node_drain_track (ha : TrackM oa M Ta Ba ra) (hb : TrackM ob M Tb Bb rb)
 
 end node
 
+/-! ### packages: rows and their fold, for any query range -/
+
+/-- a fresh iterator that tracks `L` up to `M` and, read with `Next`, yields `L` followed only by
+    samples beyond `M` -/
+def GoodD (i : AnyIt) (M : Int) (L : List Sample) : Prop :=
+  (∃ (T : i.σ → List Sample → Prop) (B : i.σ → Prop) (rem : i.σ → Nat),
+      TrackM i.ops M T B rem ∧ TrackInit i.ops T B i.st L) ∧
+  ∃ extra, drainChecked i = some (L ++ extra) ∧ ∀ x ∈ extra, M < x.t
+
+/-- what a row contributes inside the range -/
+def rowWindow (qmint qmaxt : Int) (chunks : List (List Sample)) : List Sample :=
+  takeLe qmaxt (dropLt qmint (unionFrom 0 chunks))
+
+theorem row_goodD (qmint qmaxt : Int) (c : List Sample) (cs : List (List Sample))
+    (hc : ChunkOK c) (hcs : ∀ d ∈ cs, ChunkOK d) (hs : ∀ d ∈ c :: cs, SSorted d) :
+    ∃ it, chunkSeriesIt qmint qmaxt (c :: cs) = some it ∧ GoodD it qmaxt (rowWindow qmint qmaxt (c :: cs)) := by
+  refine ⟨_, rfl, ?_⟩
+  obtain ⟨V, abs, h, hi⟩ := cs_goodN c cs hc hcs
+  have hLs : SSorted (unionFrom 0 (c :: cs)) := (unionFrom_sorted hs).1
+  refine ⟨⟨bndT V abs qmint qmaxt, bndB V abs qmint qmaxt, bndRem abs, bnd_trackM qmint qmaxt h,
+    bnd_trackInit qmint qmaxt h hi hLs⟩, [], ?_, by simp⟩
+  rw [List.append_nil]
+  exact bnd_drain h qmint qmaxt hi hLs
+
+theorem foldIts_goodD {M : Int} (hM : minT ≤ M) : ∀ (ps : List (AnyIt × List Sample)), ps ≠ [] →
+    (∀ p ∈ ps, GoodD p.1 M p.2) →
+    ∃ it, foldIts true (ps.map (·.1)) = some it ∧ GoodD it M (pmFoldL (ps.map (·.2))) := by
+  intro ps hne hg
+  cases ps with
+  | nil => exact absurd rfl hne
+  | cons p ps =>
+    refine ⟨_, rfl, ?_⟩
+    simp only [List.map_cons, pmFoldL]
+    have key : ∀ (ps : List (AnyIt × List Sample)) (acc : AnyIt) (L : List Sample), GoodD acc M L →
+        (∀ q ∈ ps, GoodD q.1 M q.2) →
+        GoodD ((ps.map (·.1)).foldl (fun acc b =>
+          { σ := Node acc.σ b.σ, ops := nodeOps acc.ops b.ops true,
+            st := nodeNew acc.ops b.ops acc.st b.st }) acc) M ((ps.map (·.2)).foldl (pm2 minT) L) := by
+      intro ps
+      induction ps with
+      | nil => intro acc L h _; exact h
+      | cons q ps ih =>
+        intro acc L hacc hq
+        simp only [List.map_cons, List.foldl_cons]
+        apply ih
+        · obtain ⟨⟨Ta, Ba, ra, ha, ia⟩, _⟩ := hacc
+          obtain ⟨⟨Tb, Bb, rb, hb, ib⟩, _⟩ := hq q (by simp)
+          exact ⟨⟨nodeT acc.ops q.1.ops Ta Ba Tb Bb, nodeB acc.ops q.1.ops Ta Ba Tb Bb, nodeRem ra rb,
+            node_trackM ha hb hM, node_trackInit ha hb ia ib⟩, node_drain_track ha hb hM ia ib⟩
+        · exact fun q' hq' => hq q' (by simp [hq'])
+    exact key ps p.1 p.2 (hg p (by simp)) (fun q hq => hg q (by simp [hq]))
+
 end Thanos.Dedup
